@@ -616,13 +616,26 @@ func c19Seq(c *Ctx, names []string, evs []event) {
 	r := c19Run(c, false, names, evs, lineR)
 	n := c19Run(c, true, names, evs, lineN)
 	nontrivial := false
+	tainted := map[string]bool{}
 	for i := range evs {
 		a, b := r.outcomes[i], n.outcomes[i]
 		if evs[i].a.kind != "RD" && i > 0 {
 			nontrivial = true
 		}
-		if !object.Constant(evs[i].a.name) {
-			continue // a non-constant loop variable or parameter lives in a register in one mode only: that is C05's subject
+		// A non-constant loop variable lives in a register in one mode and is a binding in the other (C05's subject):
+		// such a name, and whatever is assigned from it, is not held to agree between the modes.
+		ev := evs[i].a
+		if ev.kind == "FI" && !object.Constant(ev.name) {
+			tainted[ev.name] = true
+		}
+		if ev.kind == "AS" && ev.ex.kind != 0 && tainted[ev.ex.y] {
+			tainted[ev.name] = true
+		}
+		if ev.kind == "DL" {
+			delete(tainted, ev.name)
+		}
+		if !object.Constant(ev.name) || tainted[ev.name] {
+			continue
 		}
 		if (a == "err") != (b == "err") {
 			c.Fail("regmode-disagree-outcome-"+evs[i].a.kindName()+"-"+scopeName(evs[i].scope), lineR,
